@@ -83,6 +83,11 @@ var earlyWeights = []int{4, 14, 4, 1, 4, 3, 1, 10, 12, 1, 1, 8, 1, 5, 1, 8, 4, 1
 var lateWeights = []int{6, 4, 5, 4, 10, 10, 5, 3, 8, 5, 6, 7, 5, 5, 4, 3, 5, 3, 2, 4, 3, 3, 3, 2, 1, 1, 4, 2}
 
 func isTx(op string) bool {
+	for _, k := range richKinds {
+		if k == op {
+			return true
+		}
+	}
 	for _, k := range txKinds {
 		if k == op {
 			return true
@@ -103,6 +108,12 @@ func (Engine) Generate(r *simcore.RNG, tier string, idx int) *simcore.Plan {
 	if r.Chance(0.3) {
 		p.Config["mint_reduction"] = 3
 	}
+	// rich profile: non-default module genesis states, administrator messages, more message types
+	p.Config["rich"] = 0
+	if r.Chance(0.6) {
+		p.Config["rich"] = r.Range(1, 1<<20)
+	}
+	rich := p.Config["rich"] != 0
 	p.Config["superfluid"] = int64(r.Intn(2)) // pool 1's shares are a superfluid asset
 	sfHeavy := p.Config["superfluid"] == 1 && r.Chance(0.5)
 	faults := idx%2 == 1
@@ -134,6 +145,13 @@ func (Engine) Generate(r *simcore.RNG, tier string, idx int) *simcore.Plan {
 				wts = earlyWeights
 			}
 			kind := txKinds[r.Weighted(wts)]
+			if rich && r.Chance(0.3) {
+				rw := richLate
+				if b < 6 {
+					rw = richEarly
+				}
+				kind = richKinds[r.Weighted(rw)]
+			}
 			if sfHeavy && b >= 1 && r.Chance(0.4) {
 				// superfluid-heavy profile: several owners join pool 1, lock its shares for various
 				// durations and delegate them (new and existing locks) to the few validators
@@ -215,8 +233,13 @@ type world struct {
 	maxGas        int64
 }
 
-func mutateGenesis(mintReduction int64, superfluid bool) func(cdc codec.JSONCodec, gs app.GenesisState) {
-	return func(cdc codec.JSONCodec, gs app.GenesisState) { mutateGenesisWith(cdc, gs, mintReduction, superfluid) }
+func mutateGenesis(mintReduction int64, superfluid bool, rich int64) func(cdc codec.JSONCodec, gs app.GenesisState) {
+	return func(cdc codec.JSONCodec, gs app.GenesisState) {
+		mutateGenesisWith(cdc, gs, mintReduction, superfluid)
+		if rich != 0 {
+			richGenesis(cdc, gs, rich)
+		}
+	}
 }
 
 func mutateGenesisWith(cdc codec.JSONCodec, gs app.GenesisState, mintReduction int64, superfluid bool) {
@@ -385,7 +408,7 @@ func executeOnce(run *simcore.Run) []*violation {
 		fund = fund.Add(sdk.NewCoin(d, osmomath.NewInt(10_000_000_000_000_000)))
 	}
 	w := &world{run: run, txCfg: app.GetEncodingConfig().TxConfig, maxGas: p.Cfg("maxgas", 120_000_000)}
-	w.g = simnet.BuildGenesis(simnet.GenesisConfig{Accounts: int(p.Cfg("accounts", 4)), Validators: int(p.Cfg("validators", 2)), Fund: fund, MaxBlockGas: w.maxGas, Mutate: mutateGenesis(p.Cfg("mint_reduction", 156), p.Cfg("superfluid", 1) == 1)})
+	w.g = simnet.BuildGenesis(simnet.GenesisConfig{Accounts: int(p.Cfg("accounts", 4)), Validators: int(p.Cfg("validators", 2)), Fund: fund, MaxBlockGas: w.maxGas, Mutate: mutateGenesis(p.Cfg("mint_reduction", 156), p.Cfg("superfluid", 1) == 1, p.Cfg("rich", 0))})
 	var err error
 	if w.A, err = simnet.NewReplicaFromGenesis("A", w.g); err != nil {
 		panic(err)
@@ -532,6 +555,15 @@ func (w *world) buildTxs() ([][]byte, []pendingTx) {
 		}
 		fee := feeFor(gas)
 		switch f := st.Arg(2); {
+		case f%7 == 3 && f < 85:
+			// pay in a registered non-base fee token when there is one (rich profile: the
+			// white-listed setter registers uion through pool 1); generous, the ante handler
+			// converts it at the pool's spot price
+			if fts := w.A.App.TxFeesKeeper.GetFeeTokens(v.ctx); len(fts) > 0 {
+				ft := fts[int(f)%len(fts)]
+				fee = sdk.NewCoins(sdk.NewCoin(ft.Denom, fee[0].Amount.MulRaw(1000)))
+				w.run.Count("info/fee-paid-in-registered-token")
+			}
 		case f >= 97:
 			fee = sdk.NewCoins(sdk.NewCoin("ufoo", fee[0].Amount)) // not a fee token
 		case f >= 93:
